@@ -39,6 +39,7 @@ def run(idx, rep, tier):
     abort_marker(idx, rep)
     r3(idx, rep)
     c10.run_state(idx, rep, "R4")
+    K.mutable_defaults(idx, rep, "R4")
     r5(idx, rep)
     r6(idx, rep)
     rep.stats["exhaustive"] = True
@@ -201,6 +202,8 @@ def r6(idx, rep):
 
     c05.r1(idx, Proxy(rep))
     c05.r6(idx, Proxy(rep))
+    # whether the aborting exception reaches the caller is the 'raise' of the policy of the object that owns the handler
+    c05.r2(idx, K.as_rule(rep, "R6", keep=lambda k: "policy source" in k or "do_i_raise" in k))
     # Result.collect_error keeps every error; errors.json is written from result.errors
     fc, ps = K.sym_result(idx, "Result", "collect_error", args={"error": "E2"}, store={"self._errors": ["E1"]})
     rep.check(len(ps) == 1 and ps[0].final_store.get("self._errors") == ["E1", "E2"], "R6", f"{fc.file}::Result.collect_error appends", f"{ps[0].final_store.get('self._errors')}", K.where(fc, fc.node))
